@@ -873,15 +873,21 @@ def _inline_new_helpers(j, ref, renamed_new):
                         sites.append((b, bi))
             closures = [b for b in j["bodies"] if b.get("kind") == "Closure" and b.get("parent") == hp]
             proms = [b for b in j["bodies"] if b.get("promoted") is not None and b["path"] == hp]
-            if not sites or (len(sites) > 1 and (closures or proms)):
+            if not sites:
                 continue
+            single = len(sites) == 1
             for caller, bi in sites:
                 serial += 1
                 cl_map = {}
-                for cb in closures:
-                    newp = caller["path"] + "::{closure#%d}" % (1000 * serial + len(cl_map))
-                    cl_map[cb["path"]] = newp
+                if single:
+                    for cb in closures:
+                        newp = caller["path"] + "::{closure#%d}" % (1000 * serial + len(cl_map))
+                        cl_map[cb["path"]] = newp
+                # with several call sites the helper's closures keep their own paths (still found by definition path) and its promoted
+                # constants are left behind (their shifted indices resolve to nothing rather than to a constant of the caller)
                 _inline_call(caller, bi, h, serial, cl_map)
+                if not single:
+                    continue
                 for cb in closures:
                     cb["parent"] = caller["path"]
                     cb["path"] = cl_map[cb["path"]]
